@@ -526,15 +526,25 @@ where
                 if let Some(b) = &bytes {
                     let mut codes = vec![];
                     let mut misaligned = 0usize;
+                    // every successful placement must give the same result, borrowed parts at the
+                    // same offsets included
+                    let mut first_ok: Option<String> = None;
+                    let mut diffrefs = 0usize;
                     for r in 0..128usize {
                         let placed = arena.place(r, b);
                         let o = eps_obs::<D>(placed);
                         if o.contains("MISALIGNED") {
                             misaligned += 1;
                         }
+                        if o.starts_with("OK") {
+                            match &first_ok {
+                                None => first_ok = Some(o.clone()),
+                                Some(f) => if *f != o { diffrefs += 1; },
+                            }
+                        }
                         codes.push(class_of(&o));
                     }
-                    out.push_str(&format!("{} place {} misaligned={}\n", cid, rle(&codes), misaligned));
+                    out.push_str(&format!("{} place {} misaligned={} diffrefs={}\n", cid, rle(&codes), misaligned, diffrefs));
                 }
             }
             "wfault" => {
